@@ -86,6 +86,22 @@ def run(ctx):
                 msg = f'replay of {v} writes allocation-queue state ({sorted(f for f in rw[v] if DOMAINS.get(f) == "queue")}); prune must keep it always (observed filter {sorted(filt)})'
             ctx.ob('R12.1', f'{v}|{d}', ok, msg, pj.loc())
     ctx.floor('R12.1', n, 8, 'variant x domain pairs')
+    # a record whose replay writes restorer state and whose prune arm consults no liveness set must never be dropped
+    # (e.g. ServerStart carries the server uid; it belongs to no job or worker)
+    OPTION_ = 'core::option::Option'
+    may_drop = {v: False for v in prog.variants(EP)}
+    for o_, b_, bi_, s_ in construct_sites(prog, OPTION_, 'None'):
+        if b_.path == pj.path:
+            vs_ = variants_at(pj, EP, bi_)
+            for v in (vs_ if vs_ is not None else prog.variants(EP)):
+                may_drop[v] = True
+    nk = 0
+    for v in prog.variants(EP):
+        if rw.get(v) and not pf.get(v):
+            nk += 1
+            ctx.ob('R12.1', f'{v}|kept unconditionally', not may_drop[v],
+                   f'replay of {v} writes restorer state ({sorted(rw[v])}) and its prune arm consults no liveness set: the record must be kept on every path (a dropped ServerStart loses the server uid, a dropped queue record loses the queue)', pj.loc())
+    ctx.floor('R12.1', nk, 4, 'state-writing records without a liveness filter')
     # records that are filtered by job liveness must actually be job records (sanity of the derivation)
     for v, filt in pf.items():
         if 'job' in filt:
